@@ -23,8 +23,9 @@ CanRead(w) == w = 0
 
 VARIABLES l, wr, rd, map, lastobs, snap,
           ann,    \* per goroutine: the version it is announcing and whether the cache has held it since the call
-          hist    \* per shard: every content the shard has had since the running dump was called
-tvars == <<l, wr, rd, map, lastobs, snap, ann, hist>>
+          hist,   \* per shard: every content the shard has had since the running dump was called
+          inside  \* per goroutine: the shards it has locked and not yet left (*Locked .. *Out, the latter after the deferred unlock)
+tvars == <<l, wr, rd, map, lastobs, snap, ann, hist, inside>>
 Ev == Trace[l]
 Keys == {Trace[i].k : i \in {j \in 1..Len(Trace) : Trace[j].k # ""}}
 TraceInit == /\ l = 1 /\ wr = [s \in 1..NShards |-> 0] /\ rd = [s \in 1..NShards |-> {}]
@@ -32,59 +33,66 @@ TraceInit == /\ l = 1 /\ wr = [s \in 1..NShards |-> 0] /\ rd = [s \in 1..NShards
              /\ lastobs = [g \in {} |-> 0] /\ snap = [s \in 1..NShards |-> <<>>]
              /\ ann = [g \in {} |-> [v |-> 0, ok |-> TRUE]]
              /\ hist = [s \in 1..NShards |-> {{}}]
+             /\ inside = [g \in {} |-> {}]
              /\ TLCSet(1, 1)
 Is(e) == l <= Len(Trace) /\ Ev.ev = e /\ l' = l + 1
 Put(f, g, v) == [x \in DOMAIN f \cup {g} |-> IF x = g THEN v ELSE f[x]]
 
 (* lock order (CacheLockOrder.tla): a goroutine enters a shard only when it is inside no other - the precondition of *)
 (* the cache's freedom from deadlock under writer-preferring RWMutexes                                               *)
-Holds(g) == \E s \in 1..NShards : wr[s] = g \/ g \in rd[s]
+Holds(g) == g \in DOMAIN inside /\ inside[g] # {}
+Enter(g, s) == inside' = Put(inside, g, (IF g \in DOMAIN inside THEN inside[g] ELSE {}) \cup {s})
 InsLocked == /\ Is("InsLocked") /\ CanWrite(wr[Ev.s], rd[Ev.s]) /\ ~Holds(Ev.g)
-             /\ wr' = [wr EXCEPT ![Ev.s] = Ev.g] /\ UNCHANGED <<rd, map, lastobs, snap, ann, hist>>
+             /\ wr' = [wr EXCEPT ![Ev.s] = Ev.g] /\ UNCHANGED <<rd, map, lastobs, snap, ann, hist>> /\ Enter(Ev.g, Ev.s)
 InsDone == /\ Is("InsDone") /\ wr[Ev.s] = Ev.g /\ Ev.v > 0
            /\ map' = [map EXCEPT ![Ev.k] = [s |-> Ev.s, v |-> Ev.v]]
            /\ ann' = IF Ev.g \in DOMAIN ann /\ ann[Ev.g].v = Ev.v THEN [ann EXCEPT ![Ev.g].ok = TRUE] ELSE ann
-           /\ wr' = [wr EXCEPT ![Ev.s] = 0] /\ UNCHANGED <<rd, lastobs, snap>>
+           /\ wr' = [wr EXCEPT ![Ev.s] = 0] /\ UNCHANGED <<rd, lastobs, snap, inside>>
            /\ hist' = [hist EXCEPT ![Ev.s] = @ \cup {{<<k, IF k = Ev.k THEN Ev.v ELSE map[k].v>> :
                                                           k \in {x \in Keys : (x = Ev.k \/ (map[x].s = Ev.s /\ map[x].v > 0))}}}]
 RetLocked == /\ Is("RetLocked") /\ CanRead(wr[Ev.s]) /\ ~Holds(Ev.g)
-             /\ rd' = [rd EXCEPT ![Ev.s] = @ \cup {Ev.g}] /\ UNCHANGED <<wr, map, lastobs, snap, ann, hist>>
+             /\ rd' = [rd EXCEPT ![Ev.s] = @ \cup {Ev.g}] /\ UNCHANGED <<wr, map, lastobs, snap, ann, hist>> /\ Enter(Ev.g, Ev.s)
 RetDone == /\ Is("RetDone") /\ Ev.g \in rd[Ev.s]
            /\ Ev.v = map[Ev.k].v
            /\ rd' = [rd EXCEPT ![Ev.s] = @ \ {Ev.g}]
            /\ ann' = IF Ev.g \in DOMAIN ann /\ ann[Ev.g].v = Ev.v THEN [ann EXCEPT ![Ev.g].ok = TRUE] ELSE ann
-           /\ lastobs' = Put(lastobs, Ev.g, Ev.v) /\ UNCHANGED <<wr, map, snap, hist>>
+           /\ lastobs' = Put(lastobs, Ev.g, Ev.v) /\ UNCHANGED <<wr, map, snap, hist, inside>>
 RetReturn == /\ Is("RetReturn") /\ Ev.g \in DOMAIN lastobs /\ lastobs[Ev.g] = Ev.v
-             /\ UNCHANGED <<wr, rd, map, lastobs, snap, ann, hist>>
+             /\ UNCHANGED <<wr, rd, map, lastobs, snap, ann, hist, inside>>
 (* an announcement that has been processed is in force: between its call and its return the announcing goroutine *)
 (* inserted that version, or found it in the cache already (a repeated, unchanged template need not be written)  *)
 AnnCall == /\ Is("AnnCall") /\ ann' = Put(ann, Ev.g, [v |-> Ev.v, ok |-> FALSE])
-           /\ UNCHANGED <<wr, rd, map, lastobs, snap, hist>>
+           /\ UNCHANGED <<wr, rd, map, lastobs, snap, hist, inside>>
 AnnReturn == /\ Is("AnnReturn") /\ Ev.g \in DOMAIN ann /\ ann[Ev.g].v = Ev.v /\ ann[Ev.g].ok
-             /\ UNCHANGED <<wr, rd, map, lastobs, snap, ann, hist>>
+             /\ UNCHANGED <<wr, rd, map, lastobs, snap, ann, hist, inside>>
 (* contents of shard s: the set of <<key, version>> living there *)
 ShardContent(s) == {<<k, map[k].v>> : k \in {x \in Keys : map[x].s = s /\ map[x].v > 0}}
 DumpLocked == /\ Is("DumpLocked") /\ CanRead(wr[Ev.s]) /\ ~Holds(Ev.g)
               /\ rd' = [rd EXCEPT ![Ev.s] = @ \cup {Ev.g}]
               /\ snap' = [snap EXCEPT ![Ev.s] = <<ShardContent(Ev.s)>>]
-              /\ UNCHANGED <<wr, map, lastobs, ann, hist>>
+              /\ UNCHANGED <<wr, map, lastobs, ann, hist>> /\ Enter(Ev.g, Ev.s)
 DumpDone == /\ Is("DumpDone") /\ Ev.g \in rd[Ev.s]
-            /\ rd' = [rd EXCEPT ![Ev.s] = @ \ {Ev.g}] /\ UNCHANGED <<wr, map, lastobs, snap, ann, hist>>
+            /\ rd' = [rd EXCEPT ![Ev.s] = @ \ {Ev.g}] /\ UNCHANGED <<wr, map, lastobs, snap, ann, hist, inside>>
 KeyName(n) == "k" \o ToString(n)
 Items(s) == {<<KeyName(Ev.items[i][2]), Ev.items[i][3]>> : i \in {j \in 1..Len(Ev.items) : Ev.items[j][1] = s}}
 (* the dump is called: from here on every content a shard has is remembered - a dump that finds a shard unchanged may *)
 (* keep what the file already holds for it, but what it leaves is a content the shard had DURING this dump            *)
 DumpCall == /\ Is("DumpCall") /\ hist' = [s \in 1..NShards |-> {ShardContent(s)}]
-            /\ snap' = [s \in 1..NShards |-> <<>>] /\ UNCHANGED <<wr, rd, map, lastobs, ann>>
+            /\ snap' = [s \in 1..NShards |-> <<>>] /\ UNCHANGED <<wr, rd, map, lastobs, ann, inside>>
 DumpFile == /\ Is("DumpFile")
             /\ \A s \in 1..NShards : IF snap[s] # <<>> THEN Items(s) = snap[s][1] ELSE Items(s) \in hist[s]
-            /\ snap' = [s \in 1..NShards |-> <<>>] /\ UNCHANGED <<wr, rd, map, lastobs, ann, hist>>
+            /\ snap' = [s \in 1..NShards |-> <<>>] /\ UNCHANGED <<wr, rd, map, lastobs, ann, hist, inside>>
 (* a dump made while nothing else is going on leaves a file that loads back as what the cache holds NOW - whatever *)
 (* it wrote, skipped or kept from the dump before                                                                  *)
 DumpFinal == /\ Is("DumpFinal")
              /\ \A s \in 1..NShards : wr[s] = 0 /\ rd[s] = {} /\ Items(s) = ShardContent(s)
-             /\ snap' = [s \in 1..NShards |-> <<>>] /\ UNCHANGED <<wr, rd, map, lastobs, ann, hist>>
-TraceNext == DumpCall \/ DumpFinal \/ AnnCall \/ AnnReturn \/ InsLocked \/ InsDone \/ RetLocked \/ RetDone \/ RetReturn \/ DumpLocked \/ DumpDone \/ DumpFile
+             /\ snap' = [s \in 1..NShards |-> <<>>] /\ UNCHANGED <<wr, rd, map, lastobs, ann, hist, inside>>
+(* the goroutine has left the shard: its deferred unlock has run *)
+Out == /\ (Is("RetOut") \/ Is("InsOut") \/ Is("DumpOut"))
+       /\ Ev.g \in DOMAIN inside /\ Ev.s \in inside[Ev.g]
+       /\ inside' = [inside EXCEPT ![Ev.g] = @ \ {Ev.s}]
+       /\ UNCHANGED <<wr, rd, map, lastobs, snap, ann, hist>>
+TraceNext == Out \/ DumpCall \/ DumpFinal \/ AnnCall \/ AnnReturn \/ InsLocked \/ InsDone \/ RetLocked \/ RetDone \/ RetReturn \/ DumpLocked \/ DumpDone \/ DumpFile
 TraceSpec == TraceInit /\ [][TraceNext]_tvars
 Mark == TLCSet(1, IF TLCGet(1) < l THEN l ELSE TLCGet(1))
 Accepted == \/ TLCGet(1) = Len(Trace) + 1
